@@ -37,6 +37,10 @@ def premise_tables(ctx, rule="T", mode="exact"):
     flushes, unique5, prod = oracle.expected_tables()
     where = "src/lookups"
     n = 0
+    if mode in ("exact", "class", "category"):
+        # the oracle's strength order is re-derived by a direct pairwise rules-of-poker comparator
+        total, bad_ord = oracle.validate_ordinal()
+        rep.ob("oracle.self-check", "7462 classes strictly ordered", total == 7462 and bad_ord == 0, "the generated class order disagrees with the direct comparator at %d adjacent pairs" % bad_ord, "ckcverif/oracle.py", nontrivial=False)
     if mode == "exact":
         same = lambda got, exp: got == exp
         what = "ordinal %d"
@@ -1378,8 +1382,65 @@ def check_bestof(ctx, rule, need, table="complete", sizes=((SIX, 6), (SEVEN, 7))
                     ctx.rep.ob(rule + ".table-rows", "%s row %d" % (short(path), i), len(r) == 5 and len(set(r)) == 5 and all(0 <= x < n for x in r),
                                "row %d = %s of the combination table does not name five distinct slots of the hand" % (i, list(r)), "src/cards/%s.rs" % short(path).lower())
             facts[path] = bestof_loop(ctx, path, n, rule, need)
+            if facts[path] is not None and ("keeps-smallest-nonzero" in need or "witness-follows-value" in need):
+                bestof_end_to_end(ctx, path, n, rule, need)
         ctx.guard(rule + "." + short(path), one)
     return facts
+
+
+def bestof_end_to_end(ctx, path, n, rule, need):
+    """Cross-check of the composed function (initial state, every iteration, final sort): the fully unrolled summary,
+    with the five-card ranking left uninterpreted, is folded under seeded assignments of values to the five-slot
+    subsets and compared with `minimum non-zero value over all subsets` / `that subset in descending order`."""
+    import random
+    rep, pdb = ctx.rep, ctx.pdb
+    key, sty = ctx.method(path, "hand_rank_value_and_hand", HR)
+    k5v, _ = ctx.method(FIVE, "hand_rank_value", HR)
+    sm = ctx.summ(key, [("r", ctx.hand(path, n))], sty, opaque={k5v})
+    ret = sm.ret
+    if ret[0] != "agg" or len(ret[2]) != 2:
+        return
+    rnd = random.Random(rep.seed * 7919 + n)
+    subsets = [frozenset(c) for c in combinations(range(n), 5)]
+    slotv = {"s%d" % i: 1000 + 37 * ((i * 5) % n) + i for i in range(n)}   # distinct words, scrambled order
+    inv = {v: i for i, (k_, v) in enumerate(sorted(slotv.items(), key=lambda kv: int(kv[0][1:])))}
+    badv = badw = None
+    rounds = 40
+    for r_ in range(rounds):
+        style = r_ % 4
+        vals = {}
+        for sset in subsets:
+            if style == 0:
+                vals[sset] = rnd.randint(1, 7462)
+            elif style == 1:
+                vals[sset] = rnd.choice([0, 0, rnd.randint(1, 7462)])
+            elif style == 2:
+                vals[sset] = rnd.choice([5, 5, 9, 0])
+            else:
+                vals[sset] = 0 if r_ % 8 == 3 else rnd.randint(1, 20)
+
+        def h(a, vals=vals):
+            ws = [cval(x) for x in arr_of(a)]
+            return C(vals.get(frozenset(inv[w] for w in ws), 4242), "u16")
+        env = dict(slotv)
+        env["$fn:" + k5v] = h
+        env["$contract:find_in_products"] = lambda k: C(0, "usize")
+        out = evaluate(pdb, ret, env)
+        gotv = cval(out[2][0])
+        nz = [v for v in vals.values() if v != 0]
+        expv = min(nz) if nz else 0
+        if gotv != expv:
+            badv = badv or (r_, gotv, expv)
+        if expv != 0 and gotv == expv:
+            goth = [cval(x) for x in arr_of(out[2][1])]
+            winners = [sorted((slotv["s%d" % i] for i in sset), reverse=True) for sset, v in vals.items() if v == expv]
+            if goth not in winners:
+                badw = badw or (r_, goth)
+    rep.evals(rounds)
+    if "keeps-smallest-nonzero" in need:
+        rep.ob(rule + ".end-to-end-value", short(path), badv is None, "with seeded candidate values (round %s) the function returns %s, the smallest non-zero candidate value is %s" % (badv or (0, 0, 0)), pdb.where(key))
+    if "witness-follows-value" in need:
+        rep.ob(rule + ".end-to-end-witness", short(path), badw is None and (badv is None or "keeps-smallest-nonzero" not in need or True), "with seeded candidate values (round %s) the reported hand %s is not a minimal candidate in descending order" % (badw or (0, 0)), pdb.where(key))
 
 
 def check_C02(ctx):
@@ -1634,6 +1695,9 @@ def check_C05(ctx):
             # same functions, same shape: only overflow asserts may differ
             diff = []
             for k in pdb.fns:
+                cont = pdb.fns[k]["container"]
+                if "_serde" in k or cont.get("derived") or "::fmt" in k or "strum" in k:
+                    continue  # generated (de)serialisation / formatting code is not on any ranking path
                 if k not in pu.fns:
                     diff.append(k)
                     continue
